@@ -11,7 +11,7 @@
    replace_all with '$0' returns the input unchanged (through the expansion loop and the
    simple-replacement latch), given that group 0 of a reported match is the reported span.
    Partial: the interface facts of the matcher are hypotheses outside the engine fragment. *)
-From RX Require Import Base.Prelude Model.Engine Model.Matcher Model.Api Model.Run Proofs.ScanFacts Proofs.AnalyzeFacts Proofs.AnalyzeIterFacts Spec.Repl Proofs.ReplaceFacts.
+From RX Require Import Base.Prelude Model.Engine Model.Matcher Model.Api Model.Run Proofs.ScanFacts Proofs.AnalyzeFacts Proofs.AnalyzeIterFacts Spec.Repl Proofs.ReplaceFacts Model.Op Proofs.EngineFacts Proofs.FrameFacts Proofs.FragmentApi.
 
 Theorem C04_tokenize_pieces_partial :
   forall matchf input, good_step matchf input ->
@@ -56,8 +56,25 @@ Theorem C04_replace_dollar0_identity_partial :
     replace_loop matchf false (S maxc) input repl (length input + 2) 0 s0 [] true false = Ok input.
 Proof. intros matchf maxc input repl s0 G Hc H0 E. exact (replace_dollar0_identity matchf maxc input repl G Hc H0 s0 E). Qed.
 
+(* tokenize on the engine fragment with capturing groups (no back-reference, no variable-length
+   repeat), unoptimised program: no hypothesis about the matcher is left - the interface facts
+   (group 0 = (k, q), pos <= k < q <= len, state invariant) are proved in Proofs/FragmentApi.v from
+   the frame theorem mi_frame and the C16 guard *)
+Theorem C04_fragment_tokenize_pieces :
+  forall prog input,
+    simple input (p_case prog) (p_multi prog) (p_hasbackrefs prog) (p_maxparens prog) (p_op prog) ->
+    framed (p_op prog) ->
+    (p_hasbol prog = false /\ p_minlen prog = 0%N /\ p_prefix prog = None /\ p_icc prog = None /\ p_pre prog = []) ->
+    simple [] (p_case prog) (p_multi prog) (p_hasbackrefs prog) (p_maxparens prog) (p_op prog) ->
+    (forall s', matches prog [] 0 st0 <> MTrue s') ->
+    forall k pe s, minv s -> length input - pe < k -> pe <= length input ->
+      tok_all (matches prog input) input (S (S k)) {| t_prev := Some pe; t_ms := s |}
+      = Ok (pieces input (scan (matches prog input) input (S k) pe s) pe).
+Proof. exact fragment_tokenize. Qed.
+
 Print Assumptions C04_tokenize_pieces_partial.
 Print Assumptions C04_replace_joins_pieces_partial.
 Print Assumptions C04_analyze_texts_partial.
 Print Assumptions C04_analyze_iterator_partial.
 Print Assumptions C04_replace_dollar0_identity_partial.
+Print Assumptions C04_fragment_tokenize_pieces.
